@@ -70,6 +70,8 @@ class Engine(EngineBase, ExprMixin, CompMixin, CallMixin, FuncMixin, StmtMixin):
             cls = parts[-2]
         self.cur_target, self.cur_prop = target, con.prop
         self.cur_raises = dict(con.raises)
+        self.opaque_raise = con.opaque_raise
+        self._cm_at_yield = list(con.at_yield)
         self.obligations = []
         self.npaths = 0
         start = len(self.obligations)
@@ -94,6 +96,10 @@ class Engine(EngineBase, ExprMixin, CompMixin, CallMixin, FuncMixin, StmtMixin):
             v = fresh(self.ct.parse(ts), g)
             locs[g] = v
             self.input_vars[g] = v
+        for cv_, ts in con.closure.items():
+            v = fresh(self.ct.parse(ts), cv_)
+            locs[cv_] = v
+            self.input_vars[cv_] = v
         for key, ts in con.globals_in.items():
             # a module global the function reads: an input (same constants as ExprMixin.module_global creates)
             self.global_types[key] = ts
